@@ -34,33 +34,21 @@ def tsUp (t : Task) (s : State) : Bool :=
   !(tsGts t s).isEmpty && !(srcsNow t s.files).any (fun p => decide (maxOf (tsGts t s) < mtimeOf s.files p)) &&
     gensOk t s.files
 
-/-- **`tsCheck` in one line**: the verdict is `tsUp`; the state is untouched by a dry check and by
-a check that says "up to date" while the marker exists; in every other case the marker is left
-at the time of the check (created, or touched because the task is going to run). -/
+/-- **`tsCheck` in one line** (after fix M): the verdict is `tsUp`; the state is untouched by a dry
+check and by EVERY check that says "up to date"; otherwise the marker is left at the time of the
+check (created, or moved, because the task is going to run). -/
 theorem tsCheck_eq (t : Task) (dry : Bool) (now : Nat) (s : State) :
     tsCheck t dry now s =
-      (if dry || (tsUp t s && (aget s.marks (tsKey t)).isSome) then s
-       else { s with marks := aset s.marks (tsKey t) now }, tsUp t s) := by
+      (if dry || tsUp t s then s else { s with marks := aset s.marks (tsKey t) now }, tsUp t s) := by
   unfold tsCheck tsUp tsGts
   simp only
-  cases hm : aget s.marks (tsKey t) with
-  | none =>
-    simp only [List.append_nil, Option.isSome_none, Bool.and_false, Bool.or_false, Bool.false_eq_true, if_false]
-    generalize List.map (mtimeOf s.files) (globs (nowPats t.generates s.files)) = l
-    cases l with
-    | nil => cases dry <;> simp
-    | cons a l =>
-      simp only [List.isEmpty_cons, Bool.false_eq_true, if_false, Bool.not_false, Bool.true_and]
-      generalize ((!(srcsNow t s.files).any fun p => decide (maxOf (a :: l) < mtimeOf s.files p)) && gensOk t s.files) = up
-      cases dry <;> cases up <;> simp [aset_aset]
-  | some m =>
-    simp only [Option.isSome_some, if_true, Bool.and_true]
-    have hne : (List.map (mtimeOf s.files) (globs (nowPats t.generates s.files)) ++ [m]).isEmpty = false := by
-      cases List.map (mtimeOf s.files) (globs (nowPats t.generates s.files)) <;> rfl
-    simp only [hne, Bool.false_eq_true, if_false, Bool.not_false, Bool.true_and]
-    generalize ((!(srcsNow t s.files).any fun p =>
-      decide (maxOf (List.map (mtimeOf s.files) (globs (nowPats t.generates s.files)) ++ [m]) < mtimeOf s.files p)) &&
-      gensOk t s.files) = up
+  generalize (List.map (mtimeOf s.files) (globs (nowPats t.generates s.files)) ++
+    match aget s.marks (tsKey t) with | some m => [m] | none => []) = l
+  cases l with
+  | nil => cases dry <;> simp
+  | cons a l =>
+    simp only [List.isEmpty_cons, Bool.false_eq_true, if_false, Bool.not_false, Bool.true_and]
+    generalize ((!(srcsNow t s.files).any fun p => decide (maxOf (a :: l) < mtimeOf s.files p)) && gensOk t s.files) = up
     cases dry <;> cases up <;> simp
 
 theorem tsCheck_result (t : Task) (dry : Bool) (now : Nat) (s : State) : (tsCheck t dry now s).2 = tsUp t s := by
@@ -75,21 +63,12 @@ theorem tsCheck_marks_other (t : Task) (dry : Bool) (now : Nat) (s : State) (x :
   · rfl
   · exact aget_aset_ne _ _ (fun e => hx e.symm)
 
-/-- **an up-to-date verdict does not move an existing marker**: the whole state is unchanged -/
+/-- **an up-to-date verdict changes nothing at all** (fix M: no marker is moved, none is created) -/
 theorem tsCheck_upToDate_pure (t : Task) (dry : Bool) (now : Nat) (s : State)
-    (hmk : (aget s.marks (tsKey t)).isSome = true) (hup : (tsCheck t dry now s).2 = true) :
-    (tsCheck t dry now s).1 = s := by
+    (hup : (tsCheck t dry now s).2 = true) : (tsCheck t dry now s).1 = s := by
   rw [tsCheck_result] at hup
   rw [tsCheck_eq]
-  simp [hup, hmk]
-
-/-- an up-to-date verdict without a marker (the generates alone vouched): the marker is created
-with the time of the check -/
-theorem tsCheck_upToDate_created (t : Task) (now : Nat) (s : State)
-    (hmk : aget s.marks (tsKey t) = none) :
-    (tsCheck t false now s).1 = { s with marks := aset s.marks (tsKey t) now } := by
-  rw [tsCheck_eq]
-  simp [hmk]
+  simp [hup]
 
 /-- **a not-up-to-date verdict of a non-dry check leaves the marker at the time of the check** -/
 theorem tsCheck_stored (t : Task) (now : Nat) (s : State) (hno : (tsCheck t false now s).2 = false) :
@@ -98,19 +77,14 @@ theorem tsCheck_stored (t : Task) (now : Nat) (s : State) (hno : (tsCheck t fals
   rw [tsCheck_eq]
   simp [hno]
 
-/-- after any non-dry check the marker exists: at the time of the check, or (verdict "up to date",
-marker present before) where it was -/
+/-- after a non-dry check: the marker is at the time of the check, or (verdict "up to date") the
+state is what it was -/
 theorem tsCheck_marker_after (t : Task) (now : Nat) (s : State) :
     aget (tsCheck t false now s).1.marks (tsKey t) = some now ∨
-    ((tsCheck t false now s).2 = true ∧ (tsCheck t false now s).1 = s ∧ (aget s.marks (tsKey t)).isSome = true) := by
+    ((tsCheck t false now s).2 = true ∧ (tsCheck t false now s).1 = s) := by
   cases hv : (tsCheck t false now s).2 with
   | false => exact Or.inl (tsCheck_stored t now s hv)
-  | true =>
-    cases hm : aget s.marks (tsKey t) with
-    | none => left; rw [tsCheck_upToDate_created t now s hm]; simp
-    | some m =>
-      have hs : (aget s.marks (tsKey t)).isSome = true := by rw [hm]; rfl
-      right; exact ⟨rfl, tsCheck_upToDate_pure t false now s hs hv, by rw [← hm]; exact hs⟩
+  | true => exact Or.inr ⟨rfl, tsCheck_upToDate_pure t false now s hv⟩
 
 @[simp] theorem tsCheck_dry (t : Task) (now : Nat) (s : State) : (tsCheck t true now s).1 = s := by
   rw [tsCheck_eq]; simp
